@@ -138,8 +138,13 @@ fn body_muts(body_len: usize, thorough: bool) -> Vec<Mut> {
     v
 }
 
-/// Enumerate 0, 1 and 2 deviations.
+/// Enumerate 0, 1 and 2 deviations; with `triples` also every 3 deviations on pairwise different
+/// dimensions of which at least two are header deviations (the first `nheader` entries).
 fn plans(muts: &[Mut], pairs: bool) -> Vec<Vec<Mut>> {
+    plans3(muts, pairs, false, 0)
+}
+
+fn plans3(muts: &[Mut], pairs: bool, triples: bool, nheader: usize) -> Vec<Vec<Mut>> {
     let mut p: Vec<Vec<Mut>> = vec![vec![]];
     for m in muts {
         p.push(vec![m.clone()]);
@@ -149,6 +154,20 @@ fn plans(muts: &[Mut], pairs: bool) -> Vec<Vec<Mut>> {
             for j in i + 1..muts.len() {
                 if muts[i].dim() != muts[j].dim() {
                     p.push(vec![muts[i].clone(), muts[j].clone()]);
+                }
+            }
+        }
+    }
+    if triples {
+        for i in 0..nheader.min(muts.len()) {
+            for j in i + 1..nheader.min(muts.len()) {
+                if muts[i].dim() == muts[j].dim() {
+                    continue;
+                }
+                for k in j + 1..muts.len() {
+                    if muts[k].dim() != muts[i].dim() && muts[k].dim() != muts[j].dim() {
+                        p.push(vec![muts[i].clone(), muts[j].clone(), muts[k].clone()]);
+                    }
                 }
             }
         }
@@ -236,8 +255,9 @@ fn frontend_replies(rep: &mut Report, res: &Resources, thorough: bool) {
         let base = Reply::from_bytes(&cb, cf.len());
         let body_len = base.body.len();
         let mut muts = header_muts(op.code(), 44);
+        let nheader = muts.len();
         muts.extend(body_muts(body_len, thorough));
-        for plan in plans(&muts, true) {
+        for plan in plans3(&muts, true, thorough, nheader) {
             let mut r = base.clone();
             for m in &plan {
                 m.apply(&mut r);
@@ -292,12 +312,13 @@ fn frontend_replies(rep: &mut Report, res: &Resources, thorough: bool) {
     }
 }
 
-fn proxy_replies(rep: &mut Report, res: &Resources) {
+fn proxy_replies(rep: &mut Report, res: &Resources, thorough: bool) {
     for op in bp_ops_basic() {
         let base = Reply::from_bytes(&op.ack(0), 0);
         let mut muts = header_muts(op.code(), 10);
-        muts.extend(body_muts(8, false));
-        for plan in plans(&muts, true) {
+        let nheader = muts.len();
+        muts.extend(body_muts(8, thorough));
+        for plan in plans3(&muts, true, thorough, nheader) {
             let mut r = base.clone();
             for m in &plan {
                 m.apply(&mut r);
@@ -346,9 +367,10 @@ fn proxy_replies(rep: &mut Report, res: &Resources) {
         let good = op.reply(0x0123_4567_89ab_cdef).unwrap();
         let base = Reply::from_bytes(&good, 0);
         let mut muts = header_muts(op.code(), 12);
+        let nheader = muts.len();
         // GPU flags: only bit 2 is defined; version bits are not used on this channel
-        muts.extend(body_muts(base.body.len().min(16), false));
-        for plan in plans(&muts, base.body.len() <= 16) {
+        muts.extend(body_muts(base.body.len().min(16), thorough));
+        for plan in plans3(&muts, base.body.len() <= 16 || thorough, thorough && base.body.len() <= 16, nheader) {
             let mut r = base.clone();
             for m in &plan {
                 m.apply(&mut r);
@@ -483,7 +505,7 @@ pub fn run(rep: &mut Report) {
     coop::enable();
     let res = Resources::new();
     frontend_replies(rep, &res, thorough);
-    proxy_replies(rep, &res);
+    proxy_replies(rep, &res, thorough);
     request_server(rep, &res, thorough);
     coop::disable();
     rep.states = rep.outcomes.len() as u64;
@@ -492,7 +514,7 @@ pub fn run(rep: &mut Report) {
     rep.sample(json!({"part":"frontend","op":"GetFeatures","mutations":["FlipFlag(2)"],"expect":"Err (REPLY flag missing)"}));
     rep.sample(json!({"part":"frontend","op":"SetVringNum(0,128)","mutations":["Body64(0,1)"],"expect":"Err (non-zero acknowledgement)"}));
     rep.sample(json!({"part":"request_server","code":9,"flags":1,"size":40,"nfds":2,"expect":"handler not invoked"}));
-    rep.rule = "for each of the reply-bearing and acknowledged frontend operations, 5 proxy calls (ack mode) and 4 reply-awaiting GPU calls: the correct reply, then every single mutation and every pair of mutations on different dimensions from {other/invalid code, each flag bit, version 0/2/3, size field 0/-1/+1/4096/4097/max, body truncated/extended, each body field to each lattice value, 0..=3 descriptors}; replies are pre-queued and the peer closes when the endpoint keeps waiting. For the frontend request server: codes 0..=16 and outliers x flag words x 16 bodies x size deltas x 0..=3 descriptors. Non-trivial = a deviating reply that was rejected, or an accepted one whose bytes satisfy the acceptance predicate and decode to the returned value".into();
+    rep.rule = "for each of the reply-bearing and acknowledged frontend operations, 5 proxy calls (ack mode) and 4 reply-awaiting GPU calls: the correct reply, then every single mutation, every pair of mutations on different dimensions (and at thorough every triple with at least two header deviations) from {other/invalid code, each flag bit, version 0/2/3, size field 0/-1/+1/4096/4097/max, body truncated/extended, each body field to each lattice value, 0..=3 descriptors}; replies are pre-queued and the peer closes when the endpoint keeps waiting. For the frontend request server: codes 0..=16 and outliers x flag words x 16 bodies x size deltas x 0..=3 descriptors. Non-trivial = a deviating reply that was rejected, or an accepted one whose bytes satisfy the acceptance predicate and decode to the returned value".into();
     rep.assumptions.push("acceptance predicate = the statement's (REPLY flag, same code, valid body, descriptors exactly when defined); the crate may reject more".into());
 }
 
